@@ -150,6 +150,18 @@ def lshift (a : Poly) (n : Nat) : Poly := if a = [] then [] else List.replicate 
 /-- ≙ gfpx.py:358 `_rshift` (n ≥ 0) -/
 def rshift (a : Poly) (n : Nat) : Poly := a.drop n
 
+/-- ≙ gfpx.py:245 `_reverse(a, d)`: keep/pad to exactly `d + 1` coefficients, reverse, strip.
+The argument is `d + 1` (so `d = -1` is `some 0`); `none` ≙ `d = None` (d = degree of a) -/
+def reverse (a : Poly) (d1 : Option Nat) : Poly :=
+  let n := match d1 with
+    | none => a.length
+    | some n => n
+  let t := a.take n
+  norm ((t ++ List.replicate (n - t.length) 0).reverse)
+
+/-- ≙ gfpx.py:257 `_truncate(a, n)` -/
+def truncate (a : Poly) (n : Nat) : Poly := norm (a.take n)
+
 /-! ### division -/
 
 /-- Python `(x - q*y) % p` on ints (result in `{0..p-1}` for `p > 0`) -/
